@@ -53,6 +53,8 @@ def _wrun(item):
             return idx, res, None, time.time() - t0
         # harness error: report, never a violation
         return idx, None, traceback.format_exc(), time.time() - t0
+    for v in res.violations:
+        v.setdefault('_shard', idx)
     return idx, res, None, time.time() - t0
 
 
@@ -103,6 +105,15 @@ def do_replay(pid, path):
         _, res, err, _ = _wrun((0, v['case']['shard']))
         if res is None:
             res = Result()
+    elif 'history_shard' in v:
+        # the violation depends on what the same worker process executed before it: re-run its whole shard
+        _W.update(mod=mod, tier=os.environ.get('VERIF_TIER') or 'quick', seed=int(os.environ.get('VERIF_SEED', '0') or 0))
+        _, res, err, _ = _wrun((0, v['history_shard']))
+        if res is None:
+            res = Result()
+        want = jhash([v['kind'], v['case']])
+        res.violations = [x for x in res.violations if jhash([x['kind'], x['case']]) == want]
+        res.n_violations = len(res.violations)
     else:
         res = mod.replay(v['case'])
     hits = [x for x in res.violations if x['kind'] == v['kind']]
@@ -194,6 +205,17 @@ def main(argv=None):
             json.dump(v, fh, indent=1, sort_keys=True, default=repr)
         if printed < 3 and not args.no_confirm:
             ok, outs = confirm(pid, path, args.tier)
+            if not ok and '_shard' in v and '"reproduced": false' in outs[0] and outs[0] == outs[1]:
+                # deterministic non-reproduction of the isolated case: the outcome may depend on the cases the
+                # worker executed before it.  Replay the whole shard twice in fresh interpreters.
+                v2 = dict(v)
+                v2['history_shard'] = shards[v['_shard']]
+                v2['message'] = '[history-dependent: reproduces only after the earlier cases of its shard] ' + v['message']
+                with open(path, 'w') as fh:
+                    json.dump(v2, fh, indent=1, sort_keys=True, default=repr)
+                ok, outs = confirm(pid, path, args.tier)
+                if ok:
+                    v = v2
             if not ok:
                 nondet = True
                 print(f'NONDETERMINISM property={pid} replay={path} {outs}', file=sys.stderr)
